@@ -15,7 +15,7 @@ UN_LABELS = [-1, 0, 7, 'nan']
 def experiment_frame_spec(draw, purpose):
   """purpose in {'c06', 'c07', 'c18', 'c19'}."""
   colab = draw(st.integers(0, 3)) == 0
-  scen = draw(st.sampled_from(['fixed', 'variable'] * 3 + (['ctl_test_only', 'pre_only'] if purpose == 'c07' else []))) if purpose in ('c07', 'c18') else None
+  scen = draw(st.sampled_from(['fixed', 'variable'] * 3 + (['ctl_test_only', 'pre_only', 'trt_always_on'] if purpose == 'c07' else ['trt_always_on']))) if purpose in ('c07', 'c18') else None
   min_pre = 8 if purpose == 'c19' else (10 if (purpose == 'c07' and scen == 'variable') else 3)
   n_pre = draw(st.one_of(st.integers(min_pre, min_pre + 3), st.integers(min_pre, 40)))
   n_test = draw(st.one_of(st.integers(1, 3), st.integers(1, 20)))
@@ -56,6 +56,8 @@ def experiment_frame_spec(draw, purpose):
       'perm_seed': draw(st.integers(0, 10 ** 6)),
       'str_ids': draw(st.booleans()),
       'dup_index': draw(st.sampled_from([0, 0, 0, 2, 5])),
+      'int_values': draw(st.integers(0, 4)) == 0,
+      'missing_row': draw(st.integers(0, 200)) if (purpose == 'c19' and draw(st.integers(0, 3)) == 0) else None,
   }
   if purpose == 'c19':
     spec['outlier'] = ({'pos': draw(st.integers(0, N - 1)), 'amount': draw(st.sampled_from([50, 200, 500])),
@@ -149,7 +151,14 @@ def materialise(spec, drop_unassigned=False, permute=True, split_first_treatment
     c = None
     if has_cost:
       cs = spec['cost']
-      if cs['scenario'] in ('fixed', 'ctl_test_only', 'pre_only'):
+      if cs['scenario'] == 'trt_always_on':
+        # treatment geos spend all the time (more in the test), control geos never: the control cost series is constant 0
+        c = np.zeros(N)
+        if g['g'] == 't':
+          ce = np.asarray(cs['cnoise'][gi], float)
+          c = g['clv'] * 8.0 + ce / 16.0 + cs['cost_lift'] * is_test
+          c = np.maximum(c, 1.0 / 64)
+      elif cs['scenario'] in ('fixed', 'ctl_test_only', 'pre_only'):
         c = np.zeros(N)
         if g['g'] == 't':
           c = g['clv'] * cs['spend'] * is_test + cs['cool_spend'] * is_cool * 1.0
@@ -165,6 +174,10 @@ def materialise(spec, drop_unassigned=False, permute=True, split_first_treatment
         if g['g'] == 't':
           c = c + cs['cost_lift'] * is_test
       c = np.round(c * 1024) / 1024
+    if spec.get('int_values'):
+      v = np.floor(v)
+      if c is not None and spec['cost']['scenario'] in ('fixed', 'variable'):
+        c = np.floor(c)
     if g['g'] == 'c':
       glabel = lab['group_control']
       X += v
@@ -184,8 +197,8 @@ def materialise(spec, drop_unassigned=False, permute=True, split_first_treatment
     parts = [(v, c)]
     if split_first_treatment and g['g'] == 't' and n_split == 0:
       n_split = 1
-      v1 = np.floor(v * 512) / 1024
-      parts = [(v1, None if c is None else np.floor(c * 512) / 1024)]
+      v1 = np.floor(v / 2.0) if spec.get('int_values') else np.floor(v * 512) / 1024
+      parts = [(v1, None if c is None else (np.floor(c / 2.0) if spec.get('int_values') else np.floor(c * 512) / 1024))]
       parts.append((v - v1, None if c is None else c - parts[0][1]))
     for (vv, cc) in parts:
       gid += 1
@@ -202,6 +215,12 @@ def materialise(spec, drop_unassigned=False, permute=True, split_first_treatment
           cols[names['key_cost']].append(float(cc[d]))
       geo_rows.append((name, g['g']))
   df = pd.DataFrame(cols)
+  if spec.get('int_values'):
+    # integer-typed measurements (whole units; the arrays were floored before the totals were accumulated)
+    for k in (names['key_response'],) + ((names['key_cost'],) if (has_cost and spec['cost']['scenario'] in ('fixed', 'variable')) else ()):
+      df[k] = df[k].astype('int64')
+  if spec.get('missing_row') is not None and len(df) > 4:
+    df = df.drop(index=df.index[spec['missing_row'] % len(df)]).reset_index(drop=True)     # one geo misses one day
   if permute and spec['perm_seed']:
     rs = np.random.RandomState(spec['perm_seed'] % (2 ** 31))
     df = df.iloc[rs.permutation(len(df))].reset_index(drop=True)
